@@ -79,6 +79,10 @@ def generate(api):
         formats.append((_const(k, (str,), rel + ": formats key", U), _const(v, (str,), rel + ": formats value", U)))
     if len(set(k for k, _ in formats)) != len(formats):
         raise U("%s: duplicate key in ProgressBar.formats" % rel)
+    # a dictionary: the order of the entries means nothing; the known names come first in a fixed order
+    KNOWN_FORMATS = ["normal", "normal_nomax", "verbose", "verbose_nomax", "very_verbose", "very_verbose_nomax",
+                     "debug", "debug_nomax"]
+    formats.sort(key=lambda kv: KNOWN_FORMATS.index(kv[0]) if kv[0] in KNOWN_FORMATS else len(KNOWN_FORMATS))
 
     init = P.find_function(tree, "ProgressBar", "__init__", rel, decorators=())
     names = [a.arg for a in init.args.args]
@@ -211,7 +215,7 @@ def generate(api):
     P.imported_as(tree, "format_time", ("clikit.utils.time",), rel)
 
     out = [api.HEADER + "namespace Clikit.Gen.C16\n"]
-    out.append("/-- `ProgressBar.formats` (name, template), in source order -/")
+    out.append("/-- `ProgressBar.formats` (name, template), in source order -/")  # (the order of the unchanged source)
     out.append("def formats : List (List Char × List Char) := [")
     out.append(",\n".join("  (%s,\n   %s)" % (_chars(k), _chars(v)) for k, v in formats))
     out.append("]\n")
